@@ -1,6 +1,7 @@
 package main
 
 import (
+	"sort"
 	"fmt"
 	"go/token"
 	"go/types"
@@ -59,6 +60,60 @@ func c19R1(r *Report) {
 				r.Undecided("R1", "http.Handle/"+fname(f), c.Pos(), "a route is registered with http.Handle: its handler type is not enumerated by the rule")
 			}
 		})
+	}
+	// storrent serves the process-wide default mux (its routes are registered with the package-level http.HandleFunc):
+	// then every registration on that mux anywhere in the linked program is a route of storrent's server — a package
+	// imported for its side effects (net/http/pprof, expvar, x/net/trace) adds routes that never pass checkLocal
+	usesDefault := false
+	for _, f := range p.SrcFuncs() {
+		allInstrs(f, func(in ssa.Instruction) {
+			if c, ok := in.(*ssa.Call); ok && (isStdCall(c, "net/http", "", "HandleFunc") || isStdCall(c, "net/http", "", "Handle")) {
+				usesDefault = true
+			}
+		})
+	}
+	if usesDefault {
+		nForeign := 0
+		var fns []*ssa.Function
+		for f := range p.AllFuncs() {
+			if f.Blocks == nil {
+				continue
+			}
+			pp := funcPkgPath(f)
+			if pp == "net/http" || pp == modPath || strings.HasPrefix(pp, modPath+"/") {
+				continue
+			}
+			fns = append(fns, f)
+		}
+		sort.Slice(fns, func(i, j int) bool { return fns[i].String() < fns[j].String() })
+		for _, f := range fns {
+			allInstrs(f, func(in ssa.Instruction) {
+				c, ok := in.(*ssa.Call)
+				if !ok {
+					return
+				}
+				reg := isStdCall(c, "net/http", "", "HandleFunc") || isStdCall(c, "net/http", "", "Handle")
+				if !reg && (isStdCall(c, "net/http", "ServeMux", "HandleFunc") || isStdCall(c, "net/http", "ServeMux", "Handle")) && len(c.Call.Args) > 0 {
+					if ld, okl := c.Call.Args[0].(*ssa.UnOp); okl && ld.Op == token.MUL {
+						if g, okg := ld.X.(*ssa.Global); okg && g.Name() == "DefaultServeMux" && g.Pkg != nil && g.Pkg.Pkg.Path() == "net/http" {
+							reg = true
+						}
+					}
+				}
+				if !reg {
+					return
+				}
+				nForeign++
+				pat := "?"
+				for _, a := range c.Call.Args {
+					if sv, oks := constString(a); oks {
+						pat = sv
+					}
+				}
+				r.Fail("R1", fmt.Sprintf("foreign-route/%s/%s", funcPkgPath(f), pat), c.Pos(), "package %s, linked into the program, registers the route %q on the default mux that storrent's web server serves: its handler never calls checkLocal, so a request with a foreign Host header (DNS rebinding) reaches it", funcPkgPath(f), pat)
+			})
+		}
+		r.Notes = append(r.Notes, fmt.Sprintf("R1: %d functions of %d linked non-module packages scanned for registrations on http.DefaultServeMux: %d found", len(fns), len(p.SSA.AllPackages()), nForeign))
 	}
 	for _, h := range handlers {
 		r.Fn(h)
